@@ -1,1 +1,3 @@
 import Props.C15
+import Props.C14
+import Props.C17
